@@ -403,7 +403,24 @@ def process_state(ctx, rule_id="FX-PROCESS-STATE"):
             if isinstance(c, ast.ClassDef):
                 for st in c.body:
                     if isinstance(st, (ast.Assign, ast.AnnAssign)) and st.value is not None and _container_kind(st.value) not in (None, "none"):
-                        raise AnalysisError("%s:%d class %s binds a mutable container in its body (`%s`): state shared by all instances is not in the reviewed inventory (sa/state.py)" % (rel, st.lineno, c.name, unparse(st)[:60]))
+                        tgc = st.targets[0] if isinstance(st, ast.Assign) else st.target
+                        if not isinstance(tgc, ast.Name):
+                            raise AnalysisError("%s:%d class %s binds a mutable container in its body (`%s`)" % (rel, st.lineno, c.name, unparse(st)[:60]))
+                        nm = tgc.id
+                        meths = [f for f in c.body if isinstance(f, (ast.FunctionDef, ast.AsyncFunctionDef))]
+                        # an instance attribute of the same name assigned in __init__ shadows the class-level container
+                        shadowed = any(isinstance(a, ast.Assign) and any(unparse(t) == "self." + nm for t in a.targets) for f in meths if f.name == "__init__" for a in ast.walk(f))
+                        muts = []
+                        for f in meths:
+                            for n in ast.walk(f):
+                                if isinstance(n, ast.Call) and isinstance(n.func, ast.Attribute) and n.func.attr in MUTATORS and unparse(n.func.value) in ("self." + nm, "%s.%s" % (c.name, nm), "cls." + nm, "type(self)." + nm):
+                                    muts.append((f.name, n.lineno, unparse(n)[:50]))
+                                tg2 = n.target if isinstance(n, ast.AugAssign) else (n.targets[0] if isinstance(n, ast.Assign) and len(n.targets) == 1 else None)
+                                if isinstance(tg2, ast.Subscript) and unparse(tg2.value) in ("self." + nm, "%s.%s" % (c.name, nm), "cls." + nm):
+                                    muts.append((f.name, n.lineno, unparse(n)[:50]))
+                        r.check(shadowed or not muts, "%s::%s.%s" % (rel.rsplit("/", 1)[-1], c.name, nm), rel, c.name, st.lineno, "class-level container %s.%s" % (c.name, nm),
+                                "class %s binds the mutable container `%s` in its body and %s mutates it in place without __init__ giving each instance its own: every instance in the process shares one %s, so what one call leaves there is seen by the next (%s)" % (
+                                    c.name, nm, ", ".join(sorted({m_[0] for m_ in muts})), _container_kind(st.value), "; ".join("%s line %d: %s" % m_ for m_ in muts[:3])))
         # state parked on objects that are handed in (grids, spaces, parameter objects are shared between operators)
         for fn, cls, node, holder, how, key, value in object_state_writes(m.tree):
             qn = "%s.%s" % (cls.name, fn.name) if cls is not None else fn.name
